@@ -226,17 +226,63 @@ theorem model_head {g : RGrammar} (hm : GoodModels g) {n : String} (hn : n ∈ g
 
 /-! ### parameters -/
 
+/-- a model parameter, whatever precedes it: a numeric text, or a label on which `readNumber` fails
+    (a leading sign is fine when no number follows it: `-dm`, `+x`) -/
 def ParamOK (g : RGrammar) : Param → Prop
-  | .num v => NumText v ∧ NotModel g v
-  | .word w => GoodLabel g w ∧ NotNum w ∧ NotModel g w ∧ w ≠ "PHOTOS"
+  | .num v => NumText v
+  | .word w => GoodLabel g w ∧ NotNum w
 
 instance (g : RGrammar) (p : Param) : Decidable (ParamOK g p) := by
   cases p <;> simp only [ParamOK] <;> infer_instance
 
+/-- what the reader checks only on the token that follows a numeric parameter: it must not be taken
+    for a model name, nor be `PHOTOS` -/
+def AfterNumOK (g : RGrammar) : Param → Prop
+  | .num v => NotModel g v
+  | .word w => NotModel g w ∧ w ≠ "PHOTOS"
+
+instance (g : RGrammar) (p : Param) : Decidable (AfterNumOK g p) := by
+  cases p <;> simp only [AfterNumOK] <;> infer_instance
+
+def isNumP : Param → Bool
+  | .num _ => true
+  | .word _ => false
+
+/-- a parameter list; `prevNum`: the token before it is a numeric parameter -/
+def ParamsOK (g : RGrammar) : Bool → List Param → Prop
+  | _, [] => True
+  | prevNum, p :: ps => ParamOK g p ∧ (prevNum = true → AfterNumOK g p) ∧ ParamsOK g (isNumP p) ps
+
+instance decParamsOK (g : RGrammar) : (b : Bool) → (ps : List Param) → Decidable (ParamsOK g b ps)
+  | _, [] => by unfold ParamsOK; infer_instance
+  | b, p :: ps => by
+    unfold ParamsOK
+    have := decParamsOK g (isNumP p) ps
+    infer_instance
+
+theorem ParamsOK.all {g : RGrammar} {ps : List Param} : ∀ {b : Bool}, ParamsOK g b ps → ∀ p ∈ ps, ParamOK g p := by
+  induction ps with
+  | nil => intro b _ p hp; cases hp
+  | cons q ps ih =>
+    intro b h p hp
+    rcases List.mem_cons.mp hp with rfl | hp
+    · exact h.1
+    · exact ih h.2.2 p hp
+
+theorem ParamsOK.head {g : RGrammar} {ps : List Param} (h : ParamsOK g true ps) :
+    ∀ p ∈ ps.head?, ParamOK g p ∧ AfterNumOK g p := by
+  intro p hp
+  cases ps with
+  | nil => cases hp
+  | cons q ps =>
+    simp only [List.head?_cons, Option.mem_def, Option.some.injEq] at hp
+    subst hp
+    exact ⟨h.1, h.2.1 rfl⟩
+
 theorem param_head {g : RGrammar} (hg : GoodGrammar g) {p : Param} (hp : ParamOK g p) :
     ∃ c tl, (paramText p).toList = c :: tl ∧ isBlankC c = false ∧ c ≠ '#' := by
   cases p with
-  | num v => exact numText_head hp.1
+  | num v => exact numText_head hp
   | word w => exact label_head hg hp.1
 
 theorem show_head' (n : NumLit) (hn : GoodNum n) :
@@ -264,7 +310,7 @@ theorem param_head' {g : RGrammar} (hg : GoodGrammar g) {p : Param} (hp : ParamO
     ∃ c tl, (paramText p).toList = c :: tl ∧ isStop c = false ∧ c ≠ ';' ∧ c ≠ ',' := by
   cases p with
   | num v =>
-    obtain ⟨n, hn, hsh⟩ := hp.1.lit
+    obtain ⟨n, hn, hsh⟩ := NumText.lit hp
     obtain ⟨c, t, hct, hc⟩ := show_head' n hn
     refine ⟨c, t, by simp only [paramText]; rw [← hsh, hct], ?_⟩
     rcases hc with h | rfl | rfl | rfl
@@ -590,7 +636,7 @@ theorem params_sstops (i : Nat) (ps : List Param) :
     · rw [h]; exact sepchar_isSep hc
 
 include hg hm hσ hE hsg in
-theorem params_afterNum (i : Nat) (ps : List Param) (hps : ∀ p ∈ ps, ParamOK g p) :
+theorem params_afterNum (i : Nat) (ps : List Param) (hps : ∀ p ∈ ps.head?, ParamOK g p ∧ AfterNumOK g p) :
     AfterNum g (renderParamsS σ i ps ++ (sepText E ++ (sg ++ ';' :: rest))) := by
   cases ps with
   | nil =>
@@ -600,7 +646,7 @@ theorem params_afterNum (i : Nat) (ps : List Param) (hps : ∀ p ∈ ps, ParamOK
       exact afterNum_sepchar hg hm h (by decide)
     · exact afterNum_sepchar hg hm h hc
   | cons p ps =>
-    have hp := hps p List.mem_cons_self
+    obtain ⟨hp, hp2⟩ := hps p rfl
     obtain ⟨hs, hne⟩ := params_sstops σ hσ hE hsg rest (i + 1) ps
     simp only [renderParamsS, List.append_assoc]
     rcases sep_skipWs (hσ i).1 ((paramText p).toList ++ (renderParamsS σ (i + 1) ps ++ (sepText E ++ (sg ++ ';' :: rest))))
@@ -611,29 +657,29 @@ theorem params_afterNum (i : Nat) (ps : List Param) (hps : ∀ p ∈ ps, ParamOK
       cases p with
       | num v =>
         simp only [paramText]
-        refine ⟨takeModel_notModel hm hp.2 hs hne, ?_⟩
+        refine ⟨takeModel_notModel hm hp2 hs hne, ?_⟩
         intro w r _
-        rw [takeNumberText_sstops hp.1 hs]
+        rw [takeNumberText_sstops hp hs]
         rfl
       | word w =>
         simp only [paramText]
-        refine ⟨takeModel_notModel hm hp.2.2.1 hs hne, ?_⟩
+        refine ⟨takeModel_notModel hm hp2.1 hs hne, ?_⟩
         intro w' r h
         rw [takeLabel_sstops hg hp.1 hs] at h
         simp only [Option.some.injEq, Prod.mk.injEq] at h
         have : (w' == "PHOTOS") = false := by
-          rw [← h.1]; simpa using hp.2.2.2
+          rw [← h.1]; simpa using hp2.2
         rw [this, Bool.and_false]
     · exact afterNum_sepchar hg hm h hc
 
 include hg hm hσ hE hsg in
 theorem modelOptions_params (ps : List Param) :
-    ∀ (i f : Nat) (acc : List Param) (has : Bool), (∀ p ∈ ps, ParamOK g p) → paramsCost σ i ps + sepCost E < f →
+    ∀ (i f : Nat) (acc : List Param) (has b : Bool), ParamsOK g b ps → paramsCost σ i ps + sepCost E < f →
       modelOptions g f (renderParamsS σ i ps ++ (sepText E ++ (sg ++ ';' :: rest))) acc has =
         .ok (acc.reverse ++ ps, if ps.isEmpty then has || sepMarks E else true, ';' :: rest) := by
   induction ps with
   | nil =>
-    intro i f acc has _ hf
+    intro i f acc has b _ hf
     simp only [paramsCost, Nat.zero_add] at hf
     obtain ⟨n, rfl⟩ : ∃ n, f = n + 1 + sepCost E := ⟨f - 1 - sepCost E, by omega⟩
     simp only [renderParamsS, List.nil_append]
@@ -642,13 +688,12 @@ theorem modelOptions_params (ps : List Param) :
     rw [skipWs_blanks _ _ hsg, skipWs_nonblank _ _ (by decide)]
     simp
   | cons p ps ih =>
-    intro i f acc has hps hf
+    intro i f acc has b hps hf
     simp only [paramsCost] at hf
     obtain ⟨n, rfl⟩ : ∃ n, f = n + 1 + sepCost (σ i) := ⟨f - 1 - sepCost (σ i), by omega⟩
-    have hp := hps p List.mem_cons_self
-    have hps' : ∀ q ∈ ps, ParamOK g q := fun q hq => hps q (List.mem_cons_of_mem _ hq)
+    have hp : ParamOK g p := hps.1
+    have hps' : ParamsOK g (isNumP p) ps := hps.2.2
     obtain ⟨hs, hne⟩ := params_sstops σ hσ hE hsg rest (i + 1) ps
-    obtain ⟨hA1, hA2⟩ := params_afterNum hg hm σ hσ hE hsg rest (i + 1) ps hps'
     have IH := ih (i + 1) n
     simp only [renderParamsS, List.append_assoc]
     rw [modelOptions_sep g (σ i) (hσ i).1, modelOptions]
@@ -664,9 +709,10 @@ theorem modelOptions_params (ps : List Param) :
       simp only
       split
       · rename_i heq; rw [hct] at heq; simp only [List.cons_append, List.cons.injEq] at heq; exact absurd heq.1 hc3
-      rw [takeNumberText_sstops hp.1 hs]
+      obtain ⟨hA1, hA2⟩ := params_afterNum hg hm σ hσ hE hsg rest (i + 1) ps (ParamsOK.head hps')
+      rw [takeNumberText_sstops hp hs]
       simp only [hA1, Option.isSome_none, Bool.false_eq_true, if_false]
-      have hrec := IH (Param.num v :: acc) true hps' (by omega)
+      have hrec := IH (Param.num v :: acc) true _ hps' (by omega)
       split
       · rename_i w r hl
         rw [hA2 w r hl]
@@ -681,9 +727,9 @@ theorem modelOptions_params (ps : List Param) :
       simp only
       split
       · rename_i heq; rw [hct] at heq; simp only [List.cons_append, List.cons.injEq] at heq; exact absurd heq.1 hc3
-      rw [takeNumberText_notNum hp.2.1 hp.1.1, takeLabel_sstops hg hp.1 hs]
+      rw [takeNumberText_notNum hp.2 hp.1.1 hs.nstops, takeLabel_sstops hg hp.1 hs]
       simp only
-      rw [IH (Param.word w :: acc) true hps' (by omega)]
+      rw [IH (Param.word w :: acc) true _ hps' (by omega)]
       simp
 
 include hg in
@@ -730,18 +776,39 @@ theorem LLayout.psep_good {L : LLayout} (h : GoodLLayout L) (j : Nat) :
   | none => exact ⟨by decide, by decide⟩
   | some S => exact h.2.2.1 S (List.mem_of_getElem? hj)
 
+/-- the separator after the last parameter.  A parameter list that is present but empty
+    (`.named n (some [])`: the reader produces it for `MODEL ,;` or a wrapped `MODEL` / `;`) needs a comma
+    or a line end there: a comma is added when the layout's separator has neither -/
+def LLayout.endSep (L : LLayout) (ps : List Param) : Sep :=
+  if ps.isEmpty && !sepMarks L.pend then L.pend ++ [.comma] else L.pend
+
+theorem LLayout.endSep_good {L : LLayout} (h : GoodSep L.pend) (ps : List Param) : GoodSep (L.endSep ps) := by
+  unfold LLayout.endSep
+  split
+  · intro x hx
+    rcases List.mem_append.mp hx with hx | hx
+    · exact h x hx
+    · simp only [List.mem_singleton] at hx; subst hx; trivial
+  · exact h
+
+theorem LLayout.endSep_marks (L : LLayout) : sepMarks (L.endSep []) = true := by
+  unfold LLayout.endSep
+  cases h : sepMarks L.pend with
+  | true => simp [h]
+  | false => simp [sepMarks, SepItem.marks]
+
 /-- the semicolon(s) that close a model -/
 def semiPart (L : LLayout) : List Char := L.semiGap ++ ';' :: semisText L.semis
 
 /-- the model part of a decay line, from the model token to the last semicolon -/
 def renderModel (L : LLayout) : ModelRef → List Char
   | .named name none => name.toList ++ semiPart L
-  | .named name (some ps) => name.toList ++ (renderParamsS L.psep 0 ps ++ (sepText L.pend ++ semiPart L))
+  | .named name (some ps) => name.toList ++ (renderParamsS L.psep 0 ps ++ (sepText (L.endSep ps) ++ semiPart L))
   | .alias l => l.toList ++ semiPart L
 
 def ModelOK (g : RGrammar) : ModelRef → Prop
   | .named name none => name ∈ g.models
-  | .named name (some ps) => name ∈ g.models ∧ ps ≠ [] ∧ ∀ p ∈ ps, ParamOK g p
+  | .named name (some ps) => name ∈ g.models ∧ ParamsOK g false ps
   | .alias l => GoodLabel g l ∧ NotModel g l ∧ l ≠ "PHOTOS"
 
 instance (g : RGrammar) (m : ModelRef) : Decidable (ModelOK g m) := by
@@ -781,32 +848,31 @@ theorem rModel_render {g : RGrammar} (hg : GoodGrammar g) (hm : GoodModels g) (L
       rw [skipIgnored_tok false _ hgap (model_head hm hn), takeModel_name hm hn (SStops_semi hsg _) (by simp)]
       simp only
       have := modelOptions_params hg hm L.psep hσ (E := []) (by intro x hx; cases hx) hsg (semisText L.semis ++ rest) [] 0
-        ((L.semiGap ++ ';' :: (semisText L.semis ++ rest)).length + 2) [] false (by intro p hp; cases hp)
+        ((L.semiGap ++ ';' :: (semisText L.semis ++ rest)).length + 2) [] false false trivial
         (by simp [paramsCost, sepCost])
       simp only [renderParamsS, sepText, List.flatMap_nil, List.nil_append] at this
       rw [this]
       simp only [hsemi]
       rfl
     | some ps =>
-      obtain ⟨hn, hne, hps⟩ := hmo
+      obtain ⟨hn, hps⟩ := hmo
+      have hend := LLayout.endSep_good hpend ps
       simp only [renderModel, List.append_assoc, semiPart_append]
       unfold rModel
       simp only
-      obtain ⟨hs, hne'⟩ := params_sstops L.psep hσ hpend hsg (semisText L.semis ++ rest) 0 ps
+      obtain ⟨hs, hne'⟩ := params_sstops L.psep hσ hend hsg (semisText L.semis ++ rest) 0 ps
       rw [skipIgnored_tok false _ hgap (model_head hm hn), takeModel_name hm hn hs hne']
       simp only
-      rw [modelOptions_params hg hm L.psep hσ hpend hsg (semisText L.semis ++ rest) ps 0 _ [] false hps
+      rw [modelOptions_params hg hm L.psep hσ hend hsg (semisText L.semis ++ rest) ps 0 _ [] false false hps
         (by
-          have h1 := paramsCost_le hg L.psep ps 0 hps
-          have h2 := sepCost_le L.pend
+          have h1 := paramsCost_le hg L.psep ps 0 hps.all
+          have h2 := sepCost_le (L.endSep ps)
           simp only [List.length_append, List.length_cons]
           omega)]
       simp only [hsemi]
-      have : ps.isEmpty = false := by
-        cases ps with
-        | nil => exact absurd rfl hne
-        | cons _ _ => rfl
-      simp [this]
+      cases ps with
+      | nil => simp [LLayout.endSep_marks]
+      | cons _ _ => simp
 
 /-! ### decay lines -/
 
@@ -865,7 +931,7 @@ def lineTail (L : LLayout) (k : Nat) (photos : Bool) (m : ModelRef) : List Char 
 
 theorem lineEnd_skipWs {L : SLayout} (h : GoodSLayout L) (cs : List Char) :
     ∃ c t, skipWs (L.lineEnd ++ cs) = c :: t ∧ (c = '#' ∨ c = '\r' ∨ c = '\n') := by
-  obtain ⟨_, _, ht, hc, ha⟩ := h
+  obtain ⟨_, _, ht, hc, ha, _⟩ := h
   simp only [SLayout.lineEnd, List.append_assoc]
   rw [skipWs_blanks _ _ ht]
   cases L.comment with
@@ -899,7 +965,7 @@ theorem decayLineRest_daughter (f : Nat) {gap : List Char} (hgap : Blanks gap) {
   have h1 : (first && (takeNumberText (d.toList ++ T)).isSome) = false := by
     cases first with
     | false => rfl
-    | true => rw [takeNumberText_notNum (hfirst rfl) hl.1]; rfl
+    | true => rw [takeNumberText_notNum (hfirst rfl) hl.1 hT.stops.nstops]; rfl
   rw [h1, takeLabel_good hg hl hT.stops]
   have h2 : (d == "PHOTOS") = false := by simpa using hph
   simp only [Bool.false_eq_true, if_false, h2]
@@ -927,7 +993,7 @@ theorem decayLineRest_tail (L : LLayout) (hL : GoodLLayout L) (k : Nat) (photos 
       takeModel_notModel hm hPm (SStops_gap (hγ (k + 1)) _) (by have := (hγ (k+1)).1; simp [this])]
     simp only
     have h1 : (takeNumberText ("PHOTOS".toList ++ (L.gap (k + 1) ++ (renderModel L m ++ (L.lineEnd ++ X))))).isSome = false := by
-      rw [takeNumberText_notNum (by decide) (by decide)]; rfl
+      rw [takeNumberText_notNum (w := "PHOTOS") (by decide) (by decide) (Stops_gap (hγ (k + 1)) _).nstops]; rfl
     rw [h1, Bool.and_false, takeLabel_good hg hPl (Stops_gap (hγ (k + 1)) _)]
     simp only [Bool.false_eq_true, if_false, beq_self_eq_true, if_true]
     rw [rModel_render hg hm L hL (hγ (k + 1)).2 m hmo _ hrest]
@@ -946,9 +1012,9 @@ theorem decayLineRest_tail (L : LLayout) (hL : GoodLLayout L) (k : Nat) (photos 
         cases o with
         | none => exact ⟨semiPart L, rfl, SStops_semi hL.2.1 _, by simp [semiPart]⟩
         | some ps =>
-          obtain ⟨h1, h2⟩ := params_sstops L.psep (fun j => LLayout.psep_good hL j) hL.2.2.2.1 hL.2.1
-            (semisText L.semis) 0 ps
-          exact ⟨renderParamsS L.psep 0 ps ++ (sepText L.pend ++ semiPart L), rfl, h1, h2⟩
+          obtain ⟨h1, h2⟩ := params_sstops L.psep (fun j => LLayout.psep_good hL j)
+            (LLayout.endSep_good hL.2.2.2.1 ps) hL.2.1 (semisText L.semis) 0 ps
+          exact ⟨renderParamsS L.psep 0 ps ++ (sepText (L.endSep ps) ++ semiPart L), rfl, h1, h2⟩
       obtain ⟨Y, hY, hYs, hYne⟩ := hform
       have hsk : skipIgnored first ((L.gap (k + 1) ++ (renderModel L (.named n o) ++ (L.lineEnd ++ X))).length + 1)
           (L.gap (k + 1) ++ (renderModel L (.named n o) ++ (L.lineEnd ++ X))) =
@@ -982,7 +1048,7 @@ theorem decayLineRest_tail (L : LLayout) (hL : GoodLLayout L) (k : Nat) (photos 
       have h1 : (first && (takeNumberText (l.toList ++ (L.semiGap ++ ';' :: (semisText L.semis ++ (L.lineEnd ++ X))))).isSome) = false := by
         cases first with
         | false => rfl
-        | true => rw [takeNumberText_notNum (hal rfl rfl l rfl) hl.1]; rfl
+        | true => rw [takeNumberText_notNum (hal rfl rfl l rfl) hl.1 (SStops_semi hL.2.1 _).nstops]; rfl
       rw [h1, takeLabel_sstops hg hl (SStops_semi hL.2.1 _)]
       have h2 : (l == "PHOTOS") = false := by simpa using hph
       simp only [Bool.false_eq_true, if_false, h2]
@@ -1413,7 +1479,7 @@ def stmtCore (D : DLayout) : Stmt → List Char
       (D.close.indent ++ "Enddecay".toList)))))
   | .modelAlias a m =>
     "ModelAlias".toList ++ (D.main.gap 0 ++ (a.toList ++ (D.main.gap 1 ++ renderModel D.main m)))
-  | s => renderG D.main.gap s
+  | s => renderG D.main.gap D.main.opGap s
 
 /-- what follows the last token: the rest of the line and the blank and comment lines after it -/
 def stmtTail (D : DLayout) : Stmt → List Char
@@ -1462,14 +1528,14 @@ theorem pieceOf_ok {g : RGrammar} (hG : GoodDecayGrammar g) (D : DLayout) (hD : 
   obtain ⟨hmain, hlines, hclose⟩ := hD
   obtain ⟨hg, hm, _, _⟩ := hG
   have hγ : ∀ i, GoodGap (D.main.gap i) := fun i => SLayout.gap_good hmain.1 i
-  have flat : ∀ s : Stmt, FlatNumOK g s → stmtCore D s = renderG D.main.gap s → stmtTail D s = D.main.lineEnd →
+  have flat : ∀ s : Stmt, FlatNumOK g s → stmtCore D s = renderG D.main.gap D.main.opGap s → stmtTail D s = D.main.lineEnd →
       PieceOK g (pieceOf D s) := by
     intro s hs h1 h2
     refine ⟨hmain.1.1, ?_, ?_, ?_⟩
-    · simp only [pieceOf, h1]; exact render_head _ s hs
+    · simp only [pieceOf, h1]; exact render_head _ _ s hs
     · intro rest
       simp only [pieceOf, h1, h2]
-      exact rStmt_render hg _ hγ s hs _ (endsStmt_lineEnd hmain.1 _)
+      exact rStmt_render hg _ hγ _ (fun i => SLayout.opGap_good hmain.1 i) s hs _ (endsStmt_lineEnd hmain.1 _)
     · intro rest
       simp only [pieceOf, h2]
       exact newlines1_lineEnd hmain.1 rest
